@@ -1,5 +1,5 @@
 import Proofs.C08
-import Proofs.Gen
+import Proofs.GenTables
 #print axioms Xsel.C08.handler_table
 #print axioms Xsel.C08.grammar_table
 #print axioms Xsel.C08.left_associative_levels
@@ -7,7 +7,6 @@ import Proofs.Gen
 #print axioms Xsel.C08.xsel_accepts_xpath
 #print axioms Xsel.C08.xsel_accepts_only_xpath
 #print axioms Xsel.C08.xsel_language_exact
-#print axioms Xsel.Gen.no_shared_writes
 #print axioms Xsel.Gen.handlers_agree
 #print axioms Xsel.Gen.productions_agree
 #print axioms Xsel.Gen.no_dropped_symbol
